@@ -250,7 +250,7 @@ DEFAULTS = {
     "list-i32": [{"list": [lit_int(1), lit_int(2)]}], "set-i32": [{"list": [lit_int(3)]}],
     "map-string-i32": [{"map": [[lit_str("k"), lit_int(1)]]}],
     "list-string": [{"list": [lit_str("a"), lit_str("b")]}],
-    "td-i32": [lit_int(44)], "td-str": [lit_str("td")], "td-td-i32": [lit_int(-45)], "td-enum": [{"enum": "E1.C"}],
+    "td-i32": [lit_int(44)], "td-str": [lit_str("td")], "td-td-i32": [lit_int(-45)],
     "map-string-list": [{"map": [[lit_str("k"), {"list": [lit_int(1), lit_int(2)]}]]}],
 }
 
